@@ -117,6 +117,7 @@ func c06Case(c *Ctx) {
 		if tc.Trials > 0 {
 			defer knobs(tc.Trials, tc.FailRate)()
 		}
+		tc.preCalls()
 		E := tc.Rec.Entropy()
 		mismatch := ""
 		res := exploreGen(tc.Rec, tc.Lim, func(g GenOut, t *tape.Tape) {
@@ -139,6 +140,10 @@ func c06Case(c *Ctx) {
 			suffix = ":list-contains-empty-string"
 		} else {
 			w, lim = wlTreeCaseFor(c.Tier, c.Seed, k)
+		}
+		if w.SepTrials > 0 {
+			c.Count("lowered_knob_separator_cases_not_judged", 1) // the failure mass of the separator is the user's MaxFailRate choice
+			return
 		}
 		b, err := w.Build()
 		if err != nil {
